@@ -384,7 +384,7 @@ def run(rep):
             rep.check(ok, "T-NUM", "T-NUM/order/%s<%s" % (a, b), idf.sp, "prefix %r is tested before %r" % (a, b), str(order))
     import core as _core
     import identmodel as _im
-    _rows, _un = _im.evaluate(F, False)
+    _rows, _un = _im.evaluate(F, "ignore_case" in (F.features or []))
     _core.import_rules(rep, "c07", {"IDENT-MODEL"})
     if not _core.model_decides(rep, _rows is not None and all(r[3] for r in _rows), {"T-NUM"}, "numeric pattern syntax decided by the into_identifier model"):
         rep.floor("T-NUM", 17)
